@@ -62,6 +62,12 @@ def cases(tier, rng):
         c["model"] = False
         c["tags"]["away"] = True
         cs.append(c)
+    # a DNS upstream whose tunnel answers while its session layer never does (implementation only: the tunnel's own negotiation runs
+    # for real over loopback UDP): it is abandoned at the handshake bound and the next upstream is used
+    for ups in (["dnssilent"], ["dnssilent", "oksecure"]):
+        c = mk(0, "none", ups, ["conn", "conn"], "dns-silent")
+        c["model"] = False
+        cs.append(c)
     for fwd in ("ok", "refused"):
         for ups in (["oksecure"], ["refused", "okinsecure"], ["refused"]):
             cs.append(mk(0, fwd, ups, ["conn", "conn"], "forward"))
@@ -122,7 +128,7 @@ def oracle(case, impl):
         kind, idx = res[ri]
         ri += 1
         if kind == "hang":
-            out.append(("unbounded;silent=%d" % ups.count("silent"), "a local connection neither connected nor failed within the bound: " + case["line"]))
+            out.append(("unbounded;silent=%d" % (ups.count("silent") + ups.count("stalls") + ups.count("dnssilent")), "a local connection neither connected nor failed within the bound: " + case["line"]))
             continue
         if fwd == "ok":
             if kind != "fwd":
